@@ -86,4 +86,49 @@ oracle is not even consulted. -/
 theorem unchecked_when_no_anchor (W : World) (x5c : List Bytes) (site : String) :
     traceM W (validateChainReg x5c [] site) = [] := rfl
 
+/-- The certificate that vouches is the certificate that was validated: for packed (with x5c), tpm and apple, with anchors in
+force, the certificate whose key verifies the statement (packed, tpm) / whose nonce and key are compared (apple) is the very
+first element of x5c, which is the leaf the path validation was run for, the rest of x5c being its untrusted intermediates. -/
+theorem signer_is_validated_leaf {W : World} {c : RegCred} {e : RegExpect} {r : VerifiedReg}
+    (h : runM W (verifyReg c e) = .ok r) :
+    ∃ ao roots, parseAttObj c.attestationObject = .ok ao ∧ rootsFor e ao.fmt = .ok roots ∧
+      (r.fmt = "packed" → cborTruthy ao.attStmt.x5c = true → roots ≠ [] →
+        ∃ leaf inter cert alg ad, x5cList ao.attStmt.x5c = .ok (leaf :: inter) ∧ W.chainVerify leaf inter roots = .ok ∧
+          W.x509Load leaf = some cert ∧ ao.authDataRaw = .bytes ad ∧
+          SigChecked W cert.key alg ao.attStmt.sig (ad ++ W.sha256 c.clientDataJSON)) ∧
+      (r.fmt = "tpm" → roots ≠ [] →
+        ∃ leaf inter cert alg certInfo, x5cList ao.attStmt.x5c = .ok (leaf :: inter) ∧ W.chainVerify leaf inter roots = .ok ∧
+          W.x509Load leaf = some cert ∧ ao.attStmt.certInfo = some (.bytes certInfo) ∧
+          SigChecked W cert.key alg ao.attStmt.sig certInfo) := by
+  obtain ⟨ao, att, roots, hao, _, hroots, _, _, _, hp, _, ht, _⟩ := (registration h).rules
+  refine ⟨ao, roots, hao, hroots, ?_, ?_⟩
+  · intro hf hx hne
+    obtain ⟨ad, x5c, leaf, rest, cert, alg, hraw, _, _, hx5c, hl, hch, hcert, hs⟩ := ((hp hf).1 hx).rules
+    obtain ⟨leaf', inter, hl', hv⟩ := anchors_require_valid_chain hch hne
+    rw [hl] at hl'
+    obtain ⟨h1, h2⟩ := List.cons.inj hl'
+    subst h1; subst h2
+    exact ⟨leaf, rest, cert, alg, ad, by rw [hx5c, hl], hv, hcert, hraw, hs⟩
+  · intro hf hne
+    obtain ⟨ad, x5c, leaf, rest, cert, alg, pab, cib, pa, ci, key, h0, hh, nc, hn, _, _, _, hx5c, hl, hch, _, _, _, _, hci, _, _, _,
+      _, _, _, _, _, _, _, hcert, hs, _⟩ := (ht hf).rules
+    obtain ⟨leaf', inter, hl', hv⟩ := anchors_require_valid_chain hch hne
+    rw [hl] at hl'
+    obtain ⟨h1, h2⟩ := List.cons.inj hl'
+    subst h1; subst h2
+    exact ⟨leaf, rest, cert, alg, cib, by rw [hx5c, hl], hv, hcert, hci, hs⟩
+
+/-- android-key: x5c carries its own root last; an accepted statement's root certificate is, byte for byte (as PEM), one of
+the anchors in force — the RP's roots for android-key or a built-in Google root — never merely "similar" to one (same subject,
+same key identifier); and the rest of x5c was validated against exactly that certificate. -/
+theorem android_key_root_is_anchor {W : World} {c : RegCred} {e : RegExpect} {r : VerifiedReg}
+    (h : runM W (verifyReg c e) = .ok r) (hf : r.fmt = "android-key") :
+    ∃ ao roots x5c rootDer rootCert, parseAttObj c.attestationObject = .ok ao ∧ rootsFor e ao.fmt = .ok roots ∧
+      x5cList ao.attStmt.x5c = .ok x5c ∧ x5c.getLast? = some rootDer ∧ W.x509Load rootDer = some rootCert ∧
+      rootCert.pem ∈ rpPemsOf roots ++ ((builtinRootNames.lookup "android-key").getD []).map W.builtinPem ∧
+      ChainChecked W x5c.dropLast [Root.pem rootCert.pem] := by
+  obtain ⟨ao, att, roots, hao, _, hroots, _, _, _, _, _, _, _, hk, _⟩ := (registration h).rules
+  obtain ⟨ad, x5c, rootDer, rootCert, leaf, rest, cert, alg, key, pk, kdDer, kd, _, _, hx5c, hlast, hrc, hch, hmem, _⟩ := (hk hf).rules
+  exact ⟨ao, roots, x5c, rootDer, rootCert, hao, hroots, hx5c, hlast, hrc, hmem, hch⟩
+
 end Webauthn.Props.C04
